@@ -36,6 +36,9 @@ def run(model, rep, tier):
     tsrules.never_without_buffer(ctx, rep, 'C13.R4')
     r4_who_may_assign(ctx, rep)
     r5_subunit_forces_buffer(ctx, rep)
+    rep.rule('C13.R7', 'premise of R1 in post-mortem mode, where the package drives the result itself: '
+             'stopTest (which restores the streams) follows every startTest on every exit of the loop')
+    tsrules.driver_brackets(ctx, rep, 'C13.R7')
     tsrules.record_units(rep, tsrules.exploration(ctx))
     rep.units['cfg'] = ctx.cfg_stats
 
